@@ -25,6 +25,10 @@ type EditOpts struct {
 	// PreferToolSrc makes every fifth edit a content edit of a source file of a tool target (same length,
 	// same leading bytes), which an absorbing tool turns into byte-identical output.
 	PreferToolSrc bool
+	// PreferFilegroupSrc makes every fifth edit an in-place content edit of a plain source file of a filegroup
+	// (filegroup outputs are hard links to their sources, so hashes remembered for the output must not
+	// survive such an edit).
+	PreferFilegroupSrc bool
 }
 
 // Broken returns the target whose command has been made to fail by a break-late edit, if any.
@@ -105,6 +109,17 @@ func ApplyRandomEdit(rng *rand.Rand, r *Repo, o EditOpts) (*Repo, Edit) {
 			}
 			n.Files[p] = old[:len(old)-1] + string(repl)
 			return n, Edit{"tool-src-content", p}
+		}
+	}
+	if o.PreferFilegroupSrc && rng.Intn(5) == 0 {
+		n := r.Clone()
+		for _, t := range shuffled(rng, n.Targets) {
+			if t.Kind != "filegroup" || len(t.SrcFiles) == 0 || strings.HasSuffix(t.SrcFiles[0], "/") || len(n.dependents(t.Label())) == 0 {
+				continue
+			}
+			p := filepath.Join(t.Pkg, t.SrcFiles[0])
+			n.Files[p] += pick(rng, []string{"z", "\nq", "7"})
+			return n, Edit{"filegroup-src-append", p}
 		}
 	}
 	for attempt := 0; attempt < 50; attempt++ {
